@@ -106,10 +106,18 @@ def oracle(c, o):
         return None if (r[0] == "exc" and r[1] == "ValueError") else {"why": f"invalid input {c['m']} ({c['bad']}) not rejected with ValueError: {r[:2]}", "cls": f"pifs:validation:{c['bad']}"}
     if "real_seed" in c:
         outs = o["outs"]
-        if any(x[0] != "ok" for x in outs): return {"why": f"raised with a real seed: {outs}", "cls": "pifs:raises"}
-        if outs[0] != outs[1]: return {"why": f"two calls with seed={c['real_seed']} under different numpy global states differ", "cls": "pifs:irreproducible"}
-        if outs[2] != outs[3]: return {"why": "two RandomState generators in the same state give different results", "cls": "pifs:randomstate-replay"}
-        if not all(o["global_same"]): return {"why": "a seeded call advanced numpy's global random state", "cls": "pifs:global-rng"}
+        if any(x[0] != "ok" for x in outs):
+            _v = emit({"why": f"raised with a real seed: {outs}", "cls": "pifs:raises"})
+            if _v: return _v
+        if outs[0] != outs[1]:
+            _v = emit({"why": f"two calls with seed={c['real_seed']} under different numpy global states differ", "cls": "pifs:irreproducible"})
+            if _v: return _v
+        if outs[2] != outs[3]:
+            _v = emit({"why": "two RandomState generators in the same state give different results", "cls": "pifs:randomstate-replay"})
+            if _v: return _v
+        if not all(o["global_same"]):
+            _v = emit({"why": "a seeded call advanced numpy's global random state", "cls": "pifs:global-rng"})
+            if _v: return _v
         if "rare" in c:
             # exactly one swappable pair: the result after k swaps is determined (the two rows exchanged k times)
             i, j = c["rare"]; want = [list(r_) for r_ in c["m"]]
@@ -118,23 +126,39 @@ def oracle(c, o):
             for x in (outs[0], outs[2]):
                 if x[1] != want:
                     diff = sum(1 for a_, b_ in zip(sum(x[1], []), sum(c["m"], [])) if a_ != b_)
-                    return {"why": f"{len(c['m'])}x2 matrix whose only swappable rows are {i} and {j}, k={c['k']}: {diff} cells differ from the input, exactly {4 * (c['k'] % 2)} must (result is not the input after exactly k swaps)", "cls": "pifs:not-k-swaps"}
+                    _v = emit({"why": f"{len(c['m'])}x2 matrix whose only swappable rows are {i} and {j}, k={c['k']}: {diff} cells differ from the input, exactly {4 * (c['k'] % 2)} must (result is not the input after exactly k swaps)", "cls": "pifs:not-k-swaps"})
+                    if _v: return _v
         return None
     r = o["r"]
-    if r[0] != "ok": return {"why": f"raised {r} on a swappable binary matrix {c['m']}", "cls": "pifs:raises"}
-    if not o["unmodified"]: return {"why": f"the input matrix (dtype {c['dtype']}) was modified", "cls": "pifs:input-modified"}
-    if r[3]: return {"why": "the input object itself was returned", "cls": "pifs:input-modified"}
-    if not o["global_same"]: return {"why": "a call with an explicit generator advanced numpy's global random state", "cls": "pifs:global-rng"}
+    if r[0] != "ok":
+        _v = emit({"why": f"raised {r} on a swappable binary matrix {c['m']}", "cls": "pifs:raises"})
+        if _v: return _v
+    if not o["unmodified"]:
+        _v = emit({"why": f"the input matrix (dtype {c['dtype']}) was modified", "cls": "pifs:input-modified"})
+        if _v: return _v
+    if r[3]:
+        _v = emit({"why": "the input object itself was returned", "cls": "pifs:input-modified"})
+        if _v: return _v
+    if not o["global_same"]:
+        _v = emit({"why": "a call with an explicit generator advanced numpy's global random state", "cls": "pifs:global-rng"})
+        if _v: return _v
     m, out, k = c["m"], r[1], c["k"]
     if len(out) != len(m) or any(len(a) != len(b) for a, b in zip(out, m)) or any(v not in (0, 1) for row in out for v in row):
-        return {"why": f"result {out} is not a binary matrix of the input's shape", "cls": "pifs:shape"}
+        _v = emit({"why": f"result {out} is not a binary matrix of the input's shape", "cls": "pifs:shape"})
+        if _v: return _v
     if [sum(r_) for r_ in out] != [sum(r_) for r_ in m] or [sum(col) for col in zip(*out)] != [sum(col) for col in zip(*m)]:
-        return {"why": f"margins changed: {m} -> {out}", "cls": "pifs:margins"}
-    if k == 0 and out != m: return {"why": "k=0 did not return an equal copy", "cls": "pifs:k0"}
+        _v = emit({"why": f"margins changed: {m} -> {out}", "cls": "pifs:margins"})
+        if _v: return _v
+    if k == 0 and out != m:
+        _v = emit({"why": "k=0 did not return an equal copy", "cls": "pifs:k0"})
+        if _v: return _v
     ham = sum(1 for a, b in zip(sum(m, []), sum(out, [])) if a != b)
-    if ham > 4 * k: return {"why": f"{ham} cells differ after k={k} swaps", "cls": "pifs:hamming"}
+    if ham > 4 * k:
+        _v = emit({"why": f"{ham} cells differ after k={k} swaps", "cls": "pifs:hamming"})
+        if _v: return _v
     if len(m) * len(m[0]) <= 12 and k <= 3 and tuple(tuple(x) for x in out) not in reach_exact(m, k):
-        return {"why": f"{out} is not reachable from {m} by exactly {k} checkerboard swaps", "cls": "pifs:not-k-swaps"}
+        _v = emit({"why": f"{out} is not reachable from {m} by exactly {k} checkerboard swaps", "cls": "pifs:not-k-swaps"})
+        if _v: return _v
     return None
 
 
